@@ -17,7 +17,9 @@ META = {
             "tied to the code by running the REAL ServiceHandler in-process, via the socket transport and via the file "
             "transport (the real ego binary as child) on shipped and generated services x generated requests: a model-free "
             "oracle compares the three HTTP responses field by field, and the request/response documents the real code "
-            "exchanged are compared with the model's.",
+            "exchanged are compared with the model's. The theorems hold for values of every length; the oracle therefore also "
+            "runs bodies, header values and query values of 0 B, 1 B, 4 KiB, 64 KiB +- 1, 1 MiB +- 1 and several MiB (one long "
+            "line, many lines, JSON-escaped, multi-byte, control and binary bytes) in both directions through all three paths.",
     "note": "trusted: Lean kernel; encoding/json as the transport (its string behaviour is modelled by `sanitize` and checked "
             "on every case); the harness builds router.Session the way router.ServeHTTP does (it does not go through the "
             "router, authentication is given, not performed); httptest.ResponseRecorder as the client. Modelled, not "
@@ -70,6 +72,11 @@ def run(ctx):
     for k in ("accept_lines_json_later", "accept_lines_json_first", "accept_lines_json_absent", "req_multi_valued_header"):
         if cases and c.get(k, 0) == 0:
             ctx.broken.append("harness ran no request of shape %s" % k)
+    # ... and payloads on both sides of the sizes at which buffers, line readers and pipes change behaviour
+    for k in ("size_resp_body_ge_64KiB", "size_resp_body_ge_1MiB", "size_req_body_ge_64KiB", "size_req_body_ge_1MiB",
+              "size_resp_header_ge_64KiB", "size_req_header_ge_64KiB"):
+        if cases and c.get(k, 0) == 0:
+            ctx.broken.append("harness ran no case of size class %s" % k)
     ctx.coverage.update({
         "evaluations": c.get("evaluations", 0),
         "distinct_nontrivial": c.get("distinct_nontrivial", 0),
@@ -80,7 +87,12 @@ def run(ctx):
                 "route patterns with 0-2 variables, percent-encoded and non-UTF-8 path and query values, repeated and "
                 "sensitive headers, headers sent as several lines of one name (Accept with application/json on the first / a "
                 "later / no line, q-values, comma lists, other spellings of the name; Content-Type, X-*, Cache-Control, Via, "
-                "Range, Accept-Language, Cookie, Authorization; counters accept_lines_* and req_multi_valued_header), binary bodies, anonymous/user/admin/token sessions. non-trivial = distinct (program, "
+                "Range, Accept-Language, Cookie, Authorization; counters accept_lines_* and req_multi_valued_header), binary bodies, anonymous/user/admin/token sessions. "
+                "Sizes (counters size_*): response bodies, response header values, request bodies, request header values and query "
+                "values of 0 B .. several MiB built by repeating a unit (long line, LF / CRLF lines, JSON text, HTML/LS/PS runes, "
+                "control bytes, multi-byte runes, white space, binary, invalid UTF-8), on and around 4 KiB, 64 KiB, 256 KiB, 1 MiB, "
+                "3 MiB and at drawn sizes; six of them in every quick run; requests and responses above 160 KiB (quick) / 600 KiB "
+                "are compared by the oracle only, not put through the Lean driver (req_lines_skipped_large, resp_lines_skipped_large). non-trivial = distinct (program, "
                 "request) with a header, query, body, URL variable or authenticated user",
         "samples": st.get("samples", []),
         "counters": c,
